@@ -160,7 +160,7 @@ def run_case(case, prefix):
 
     error = None
     try:
-        status = sc.run_phase([("net", net), ("app", app)], timeout=30.0)
+        status = sc.run_phase([("net", net), ("app", app)], timeout=600.0)
     except (S.HarnessStuck, S.ReplayDivergence) as e:
         status = "error"
         error = e
